@@ -675,7 +675,7 @@ var (
 
 // c15PrintLaw: the consumers of the coercions inside the library agree with them. Printing a value ({{ v }}) in a core
 // environment and in a Twig .txt template writes CoerceString(v); in a Twig html / js template the escaper's rendering
-// of CoerceString(v); v ~ '' is CoerceString(v); {% if v %} and the conditional choose by CoerceBool(v); v + 0 is
+// of CoerceString(v); v ~ ” is CoerceString(v); {% if v %} and the conditional choose by CoerceBool(v); v + 0 is
 // CoerceNumber(v). (Safe wrappers are left to C12.)
 // customSafeNone is a user-defined SafeValue that is safe for no content type.
 type customSafeNone struct{ v stick.Value }
